@@ -1,8 +1,789 @@
-//! C07 managed buffer pool ownership and conservation — not built yet.
+//! C07 — managed buffer pool: exclusive ownership and conservation.
+//!
+//! Seeded programs of managed / multishot reads on a stream socketpair, a
+//! pipe and a file over the `Proactor` API, with arbitrary hold times of the
+//! returned `BufferRef`s, cancellations and key drops, for pool sizes 1..16
+//! and small buffer lengths, on the io_uring buffer ring and on the fallback
+//! pool (polling driver).
+//!
+//! Oracles: (a) address ranges of live `BufferRef`s are pairwise disjoint;
+//! (b) a held buffer's content never changes while it is held (the OS never
+//! writes into a buffer the user holds), and freed pool memory is never
+//! written (canary allocator); (c) bytes delivered = bytes sent, in order per
+//! stream; (d) conservation, measured behaviourally: after everything is
+//! released, exactly `pool_size` further managed reads succeed while their
+//! buffers are held, with distinct buffers, the next one fails promptly with
+//! an error instead of hanging, and after releasing it works again; (e) buffers
+//! outliving the proactor stay readable and free themselves.
 
-use vcommon::Args;
+use std::{
+    io,
+    os::fd::{AsRawFd, OwnedFd},
+    time::Duration,
+};
 
-pub fn main(_args: &Args) {
-    eprintln!("c07: not implemented");
-    std::process::exit(3);
+use compio_buf::{BufResult, IoBufMut};
+use compio_driver::{
+    BufferPool, BufferRef, DriverType, Key, Proactor, PushEntry, ResultTakeBuffer, SharedFd, TakeBuffer,
+    op::{ReadManaged, ReadManagedAt, ReadMulti, RecvManaged, RecvMulti},
+    verif,
+};
+use rustix::net::RecvFlags;
+use vcommon::{Args, Report, Rng, Value, json, panics};
+
+use crate::drv::{ProbeFd, alloc, check, mk_pipe, mk_socketpair, pat, set_nonblocking};
+
+type Fd = SharedFd<ProbeFd>;
+
+#[derive(Debug, Clone, Copy, PartialEq, Eq)]
+enum Ch {
+    Sock,
+    Pipe,
+    File,
+}
+
+#[derive(Debug, Clone, PartialEq)]
+enum Act {
+    /// single managed read on channel (0 sock, 1 pipe, 2 file) asking for `len` bytes (0 = whole buffer)
+    Managed(usize, usize),
+    Multi(usize),
+    Feed(usize, usize),
+    Poll(u64),
+    Pop(usize),
+    Release(usize),
+    Cancel(usize),
+    DropKey(usize),
+    CheckHeld,
+    DropProactor,
+}
+
+#[derive(Debug, Clone)]
+struct Prog {
+    driver: &'static str,
+    pool_size: u16,
+    buf_len: usize,
+    acts: Vec<Act>,
+}
+
+impl Prog {
+    fn to_json(&self) -> Value {
+        json!({"driver": self.driver, "pool_size": self.pool_size, "buf_len": self.buf_len,
+            "acts": self.acts.iter().map(|a| match a {
+                Act::Managed(c, l) => json!(["managed", c, l]),
+                Act::Multi(c) => json!(["multi", c]),
+                Act::Feed(c, n) => json!(["feed", c, n]),
+                Act::Poll(ms) => json!(["poll", ms]),
+                Act::Pop(i) => json!(["pop", i]),
+                Act::Release(i) => json!(["release", i]),
+                Act::Cancel(i) => json!(["cancel", i]),
+                Act::DropKey(i) => json!(["dropkey", i]),
+                Act::CheckHeld => json!(["check"]),
+                Act::DropProactor => json!(["dropproactor"]),
+            }).collect::<Vec<_>>()})
+    }
+
+    fn from_json(v: &Value) -> Option<Prog> {
+        let acts = v["acts"]
+            .as_array()?
+            .iter()
+            .map(|a| {
+                let a = a.as_array()?;
+                let n = |i: usize| a.get(i).and_then(|x| x.as_u64()).unwrap_or(0) as usize;
+                Some(match a.first()?.as_str()? {
+                    "managed" => Act::Managed(n(1), n(2)),
+                    "multi" => Act::Multi(n(1)),
+                    "feed" => Act::Feed(n(1), n(2)),
+                    "poll" => Act::Poll(n(1) as u64),
+                    "pop" => Act::Pop(n(1)),
+                    "release" => Act::Release(n(1)),
+                    "cancel" => Act::Cancel(n(1)),
+                    "dropkey" => Act::DropKey(n(1)),
+                    "check" => Act::CheckHeld,
+                    "dropproactor" => Act::DropProactor,
+                    _ => return None,
+                })
+            })
+            .collect::<Option<Vec<_>>>()?;
+        Some(Prog {
+            driver: if v["driver"].as_str()? == "poll" { "poll" } else { "iour" },
+            pool_size: v["pool_size"].as_u64()? as u16,
+            buf_len: v["buf_len"].as_u64()? as usize,
+            acts,
+        })
+    }
+}
+
+fn generate(rng: &mut Rng, driver: &'static str) -> Prog {
+    let pool_size = *rng.pick(&[1u16, 2, 3, 4, 8, 16]);
+    let buf_len = *rng.pick(&[8usize, 16, 64, 256]);
+    let n = rng.range(6, 40);
+    let mut acts = Vec::new();
+    let mut nops = 0usize;
+    for _ in 0..n {
+        let r = rng.below(100);
+        let a = if nops == 0 || r < 18 {
+            nops += 1;
+            if rng.chance(1, 2) {
+                Act::Managed(rng.below(3), *rng.pick(&[0usize, 0, 1, 5, buf_len, buf_len + 7]))
+            } else {
+                Act::Multi(rng.below(2))
+            }
+        } else if r < 40 {
+            Act::Feed(rng.below(2), rng.range(1, buf_len * 3))
+        } else if r < 58 {
+            Act::Poll(*rng.pick(&[0u64, 0, 1, 10]))
+        } else if r < 76 {
+            Act::Pop(rng.below(nops))
+        } else if r < 86 {
+            Act::Release(rng.below(8))
+        } else if r < 91 {
+            Act::Cancel(rng.below(nops))
+        } else if r < 95 {
+            Act::DropKey(rng.below(nops))
+        } else if r < 99 {
+            Act::CheckHeld
+        } else {
+            acts.push(Act::DropProactor);
+            break;
+        };
+        acts.push(a);
+    }
+    Prog {
+        driver,
+        pool_size,
+        buf_len,
+        acts,
+    }
+}
+
+enum Slot {
+    None,
+    RecvManaged(Key<RecvManaged<Fd>>),
+    ReadManaged(Key<ReadManaged<Fd>>),
+    ReadManagedAt(Key<ReadManagedAt<Fd>>),
+    RecvMulti(Key<RecvMulti<Fd>>),
+    ReadMulti(Key<ReadMulti<Fd>>),
+}
+
+struct OpRt {
+    slot: Slot,
+    ch: usize,
+    done: bool,
+    /// lets the census cancel an operation whose key was dropped
+    token: Option<compio_driver::Cancel>,
+}
+
+struct Held {
+    buf: BufferRef,
+    snapshot: Vec<u8>,
+    ptr: usize,
+    cap: usize,
+}
+
+struct Exec {
+    driver: Option<Proactor>,
+    pool: Option<BufferPool>,
+    ops: Vec<OpRt>,
+    held: Vec<Held>,
+    /// per channel: fed bytes, bytes delivered so far (in delivery order)
+    fed: [Vec<u8>; 2],
+    got: [Vec<u8>; 2],
+    /// the pieces delivered per channel, in the order the harness obtained them
+    chunks: [Vec<Vec<u8>>; 2],
+    /// some op on that channel was let go with data possibly consumed
+    lossy: [bool; 2],
+    peers: Vec<OwnedFd>,
+    fds: Vec<Fd>,
+    file_content: Vec<u8>,
+    viol: Vec<(String, String)>,
+    exhausted_seen: bool,
+    held_across_completion: bool,
+    drv: &'static str,
+}
+
+fn vio(v: &mut Vec<(String, String)>, rule: &str, ctx: &str, what: String) {
+    v.push((format!("C07/{rule}/{ctx}"), what));
+}
+
+fn is_exhausted(e: &io::Error) -> bool {
+    e.kind() == io::ErrorKind::ResourceBusy || e.raw_os_error() == Some(libc::ENOBUFS)
+}
+
+impl Exec {
+    fn hold(&mut self, mut buf: BufferRef, n: usize, ch: usize, kind: &str) {
+        let cap = buf.as_uninit().len();
+        let ptr = buf.as_uninit().as_ptr() as usize;
+        let n = n.min(cap);
+        let data: Vec<u8> = unsafe { std::slice::from_raw_parts(ptr as *const u8, n).to_vec() };
+        if ch < 2 {
+            self.got[ch].extend_from_slice(&data);
+            self.chunks[ch].push(data.clone());
+        } else {
+            // file: must equal the file content at offset 0
+            if data[..] != self.file_content[..n.min(self.file_content.len())] {
+                vio(&mut self.viol, "wrong-data", &format!("{}/file/{kind}", self.drv),
+                    format!("managed file read returned {n} bytes that differ from the file"));
+            }
+        }
+        // (a) exclusive ownership: no overlap with any buffer still held
+        for h in &self.held {
+            if ptr < h.ptr + h.cap && h.ptr < ptr + cap {
+                vio(&mut self.viol, "aliasing-buffers", &format!("{}/{kind}", self.drv),
+                    format!("a buffer handed out at {ptr:#x}+{cap} overlaps a buffer the user still holds at {:#x}+{}", h.ptr, h.cap));
+            }
+        }
+        self.held.push(Held {
+            buf,
+            snapshot: data,
+            ptr,
+            cap,
+        });
+    }
+
+    fn check_held(&mut self, when: &str) {
+        let drv = self.drv;
+        for h in &self.held {
+            let now = unsafe { std::slice::from_raw_parts(h.ptr as *const u8, h.snapshot.len()) };
+            if now != &h.snapshot[..] {
+                vio(&mut self.viol, "held-buffer-changed", &format!("{drv}/{when}"),
+                    format!("the content of a buffer the user holds ({} bytes at {:#x}) changed while it was held", h.snapshot.len(), h.ptr));
+            }
+            let _ = &h.buf;
+        }
+    }
+
+    fn push_managed(&mut self, ch: usize, len: usize) {
+        let (Some(d), Some(pool)) = (self.driver.as_mut(), self.pool.as_ref()) else { return };
+        let fd = self.fds[ch].clone();
+        macro_rules! go {
+            ($op:expr, $variant:ident) => {{
+                match $op {
+                    Err(e) => {
+                        if is_exhausted(&e) {
+                            self.exhausted_seen = true;
+                        } else {
+                            vio(&mut self.viol, "unexpected-error", &format!("{}/create", self.drv), format!("creating a managed read failed: {e}"));
+                        }
+                    }
+                    Ok(op) => match d.push(op) {
+                        PushEntry::Pending(k) => {
+                            let token = Some(d.register_cancel(&k));
+                            self.ops.push(OpRt { slot: Slot::$variant(k), ch, done: false, token })
+                        }
+                        PushEntry::Ready(res) => {
+                            self.ops.push(OpRt { slot: Slot::None, ch, done: true, token: None });
+                            self.finish_single(res.map_buffer(|op| op.take_buffer()), ch, "immediate");
+                        }
+                    },
+                }
+            }};
+        }
+        match ch {
+            0 => go!(RecvManaged::new(fd, pool, len, RecvFlags::empty()), RecvManaged),
+            1 => go!(ReadManaged::new(fd, pool, len), ReadManaged),
+            _ => go!(ReadManagedAt::new(fd, 0, pool, len), ReadManagedAt),
+        }
+    }
+
+    fn finish_single(&mut self, res: BufResult<usize, Option<BufferRef>>, ch: usize, kind: &str) {
+        let BufResult(r, buf) = res;
+        match r {
+            Ok(n) => {
+                if let Some(buf) = buf {
+                    if n > 0 {
+                        self.hold(buf, n, ch, kind);
+                    }
+                } else if n > 0 {
+                    vio(&mut self.viol, "result-without-buffer", &format!("{}/{kind}", self.drv), format!("a managed read reported {n} bytes but no buffer"));
+                }
+            }
+            Err(e) if is_exhausted(&e) => self.exhausted_seen = true,
+            Err(e) if e.raw_os_error() == Some(libc::ECANCELED) => {}
+            Err(e) => vio(&mut self.viol, "unexpected-error", &format!("{}/{kind}", self.drv), format!("managed read failed: {e}")),
+        }
+    }
+
+    fn push_multi(&mut self, ch: usize) {
+        let (Some(d), Some(pool)) = (self.driver.as_mut(), self.pool.as_ref()) else { return };
+        let fd = self.fds[ch].clone();
+        macro_rules! go {
+            ($op:expr, $variant:ident) => {{
+                match $op {
+                    Err(e) => {
+                        if is_exhausted(&e) {
+                            self.exhausted_seen = true;
+                        }
+                    }
+                    Ok(op) => match d.push(op) {
+                        PushEntry::Pending(k) => {
+                            let token = Some(d.register_cancel(&k));
+                            self.ops.push(OpRt { slot: Slot::$variant(k), ch, done: false, token })
+                        }
+                        PushEntry::Ready(BufResult(r, op)) => {
+                            self.ops.push(OpRt { slot: Slot::None, ch, done: true, token: None });
+                            self.finish_single(BufResult(r, op.take_buffer()), ch, "multi-immediate");
+                        }
+                    },
+                }
+            }};
+        }
+        match ch {
+            0 => go!(RecvMulti::new(fd, pool, 0, RecvFlags::empty()), RecvMulti),
+            _ => go!(ReadMulti::new(fd, pool, 0), ReadMulti),
+        }
+    }
+
+    fn feed(&mut self, ch: usize, n: usize) {
+        let peer = &self.peers[ch];
+        set_nonblocking(peer.as_raw_fd(), true);
+        let start = self.fed[ch].len();
+        let data: Vec<u8> = (start..start + n.min(4096)).map(|o| pat(0xC07 + ch as u64, o)).collect();
+        let w = unsafe { libc::write(peer.as_raw_fd(), data.as_ptr() as _, data.len()) };
+        if w > 0 {
+            self.fed[ch].extend_from_slice(&data[..w as usize]);
+            if !self.held.is_empty() {
+                self.held_across_completion = true;
+            }
+        }
+    }
+
+    fn poll(&mut self, ms: u64) {
+        if let Some(d) = self.driver.as_mut() {
+            let _ = d.poll(Some(Duration::from_millis(ms)));
+        }
+    }
+
+    fn pop(&mut self, i: usize) {
+        if i >= self.ops.len() || self.ops[i].done || self.driver.is_none() {
+            return;
+        }
+        let ch = self.ops[i].ch;
+        let slot = std::mem::replace(&mut self.ops[i].slot, Slot::None);
+        macro_rules! single {
+            ($k:expr, $variant:ident) => {{
+                let d = self.driver.as_mut().unwrap();
+                match d.pop($k) {
+                    PushEntry::Pending(k) => self.ops[i].slot = Slot::$variant(k),
+                    PushEntry::Ready(BufResult(r, op)) => {
+                        self.ops[i].done = true;
+                        self.finish_single(BufResult(r, op.take_buffer()), ch, "managed");
+                    }
+                }
+            }};
+        }
+        macro_rules! multi {
+            ($k:expr, $variant:ident) => {{
+                loop {
+                    let item = self.driver.as_mut().unwrap().pop_multishot(&$k);
+                    let Some(BufResult(r, extra)) = item else { break };
+                    match r {
+                        Ok(n) => match extra.buffer_id() {
+                            Ok(id) => match self.pool.as_ref().unwrap().take(id) {
+                                Ok(Some(buf)) => {
+                                    if n > 0 {
+                                        self.hold(buf, n, ch, "multishot")
+                                    }
+                                }
+                                Ok(None) => vio(&mut self.viol, "buffer-not-available", &format!("{}/multishot", self.drv),
+                                    format!("multishot item names buffer {id} which the pool cannot hand out (already out, or never selected)")),
+                                Err(e) => vio(&mut self.viol, "unexpected-error", &format!("{}/multishot", self.drv), format!("pool.take failed: {e}")),
+                            },
+                            Err(_) if n == 0 => {}
+                            Err(e) => vio(&mut self.viol, "result-without-buffer", &format!("{}/multishot", self.drv), format!("multishot item with {n} bytes carries no buffer id: {e}")),
+                        },
+                        Err(e) if is_exhausted(&e) => self.exhausted_seen = true,
+                        Err(e) if e.raw_os_error() == Some(libc::ECANCELED) => {}
+                        Err(e) => vio(&mut self.viol, "unexpected-error", &format!("{}/multishot", self.drv), format!("multishot item failed: {e}")),
+                    }
+                }
+                let d = self.driver.as_mut().unwrap();
+                match d.pop_with_extra($k) {
+                    PushEntry::Pending(k) => self.ops[i].slot = Slot::$variant(k),
+                    PushEntry::Ready((BufResult(r, op), _extra)) => {
+                        self.ops[i].done = true;
+                        self.finish_single(BufResult(r, op.take_buffer()), ch, "multi-final");
+                    }
+                }
+            }};
+        }
+        match slot {
+            Slot::None => {}
+            Slot::RecvManaged(k) => single!(k, RecvManaged),
+            Slot::ReadManaged(k) => single!(k, ReadManaged),
+            Slot::ReadManagedAt(k) => single!(k, ReadManagedAt),
+            Slot::RecvMulti(k) => multi!(k, RecvMulti),
+            Slot::ReadMulti(k) => multi!(k, ReadMulti),
+        }
+    }
+
+    fn let_go(&mut self, i: usize, cancel: bool) {
+        if i >= self.ops.len() || self.ops[i].done {
+            return;
+        }
+        let ch = self.ops[i].ch;
+        let slot = std::mem::replace(&mut self.ops[i].slot, Slot::None);
+        self.ops[i].done = true;
+        if ch < 2 {
+            self.lossy[ch] = true;
+        }
+        let Some(d) = self.driver.as_mut() else { return };
+        if !cancel {
+            return;
+        }
+        if matches!(slot, Slot::None) {
+            // the key is gone already (dropped earlier): cancel through the token
+            if let Some(t) = self.ops[i].token.take() {
+                d.cancel_token(t);
+            }
+            return;
+        }
+        match slot {
+            Slot::None => {}
+            Slot::RecvManaged(k) => drop(d.cancel(k)),
+            Slot::ReadManaged(k) => drop(d.cancel(k)),
+            Slot::ReadManagedAt(k) => drop(d.cancel(k)),
+            Slot::RecvMulti(k) => drop(d.cancel(k)),
+            Slot::ReadMulti(k) => drop(d.cancel(k)),
+        }
+    }
+
+    /// (c) what was delivered is what was sent, in order (a prefix, unless data may have gone to
+    /// operations that were let go).
+    fn check_streams(&mut self) {
+        for ch in 0..2 {
+            let fed = &self.fed[ch];
+            let got = &self.got[ch];
+            let name = ["sock", "pipe"][ch];
+            if got.len() > fed.len() {
+                vio(&mut self.viol, "invented-bytes", &format!("{}/{name}", self.drv), format!("{} bytes delivered but only {} sent", got.len(), fed.len()));
+                continue;
+            }
+            // Several reads may be pending on one descriptor at once and the harness pops
+            // them in its own order: the pieces must be consecutive pieces of the stream
+            // in *some* order (with gaps only where let-go operations may have eaten data).
+            let mut pieces: Vec<&[u8]> = self.chunks[ch].iter().map(|c| c.as_slice()).collect();
+            // an operation that completed but was not popped yet (or is still pending) may hold data
+            let holding = self.ops.iter().any(|o| o.ch == ch && !o.done);
+            let ok = crate::drv::soup::arrange(fed, &mut pieces, 0, self.lossy[ch] || holding);
+            if !ok {
+                vio(&mut self.viol, "wrong-data", &format!("{}/{name}", self.drv),
+                    format!("bytes delivered through managed buffers ({}) are not the bytes sent in order ({} sent)", got.len(), fed.len()));
+            }
+        }
+    }
+
+    /// (d) behavioural conservation census.
+    fn census(&mut self, effective: usize) {
+        if self.driver.is_none() {
+            return;
+        }
+        // let go of everything still pending, drain, release everything held
+        for i in 0..self.ops.len() {
+            if self.ops[i].done {
+                if let (Some(t), Some(d)) = (self.ops[i].token.take(), self.driver.as_mut()) {
+                    d.cancel_token(t);
+                }
+            } else {
+                self.let_go(i, true);
+            }
+        }
+        for _ in 0..4 {
+            self.poll(5);
+        }
+        // operations that were let go still own their buffers until they have really ended;
+        // thread-pool jobs may not even have started yet
+        crate::drv::soup::wait_pool_jobs(Duration::from_millis(1500));
+        for _ in 0..2 {
+            self.poll(5);
+        }
+        self.check_held("before-census");
+        self.held.clear();
+        // drain what is still sitting in the socket so that reads below see fresh data only
+        let mut sink = [0u8; 8192];
+        let ours = self.fds[0].as_raw_fd();
+        set_nonblocking(ours, true);
+        while unsafe { libc::read(ours, sink.as_mut_ptr() as _, sink.len()) } > 0 {}
+        if self.drv == "iour" {
+            set_nonblocking(ours, false);
+        }
+        self.got[0].clear();
+        self.chunks[0].clear();
+        self.fed[0].clear();
+        self.lossy[0] = true;
+        for round in 0..2 {
+            let mut got = 0usize;
+            let mut failed_promptly = false;
+            for k in 0..effective + 1 {
+                self.feed(0, 1);
+                let before = self.held.len();
+                let before_ops = self.ops.len();
+                self.push_managed(0, 1);
+                let mut polls = 0;
+                while self.ops.len() > before_ops && !self.ops[before_ops].done && polls < 6 {
+                    self.poll([0u64, 5, 20, 50, 100, 100][polls]);
+                    self.pop(before_ops);
+                    polls += 1;
+                }
+                let created = self.ops.len() > before_ops;
+                let done = !created || self.ops[before_ops].done;
+                if self.held.len() > before {
+                    got += 1;
+                } else if !done {
+                    vio(&mut self.viol, "exhaustion-hangs", &format!("{}/round{round}", self.drv),
+                        format!("managed read #{k} with {got} of {effective} buffers held neither completed nor failed within 6 polls although data is available"));
+                    self.let_go(before_ops, true);
+                    break;
+                } else {
+                    failed_promptly = true;
+                    break;
+                }
+                if created {
+                    // keep ops vector small
+                }
+            }
+            if got < effective {
+                vio(&mut self.viol, "pool-shrunk", &format!("{}/round{round}", self.drv),
+                    format!("after everything was released only {got} of {effective} pool buffers could be obtained"));
+            } else if got > effective {
+                vio(&mut self.viol, "pool-grew", &format!("{}/round{round}", self.drv), format!("{got} buffers obtained from a pool of {effective}"));
+            } else if !failed_promptly {
+                vio(&mut self.viol, "exhaustion-not-reported", &format!("{}/round{round}", self.drv),
+                    "with every buffer held one more managed read did not fail".to_string());
+            } else {
+                self.exhausted_seen = true;
+            }
+            self.check_held("census");
+            self.held.clear();
+            // anything left unread (the byte of the failed read) would confuse the next round
+            set_nonblocking(ours, true);
+            while unsafe { libc::read(ours, sink.as_mut_ptr() as _, sink.len()) } > 0 {}
+            if self.drv == "iour" {
+                set_nonblocking(ours, false);
+            }
+        }
+    }
+}
+
+struct Outcome {
+    viol: Vec<(String, String)>,
+    sig: String,
+    trivial: bool,
+    log: Vec<String>,
+}
+
+fn run_prog(p: &Prog, canary: bool) -> Result<Outcome, String> {
+    let dt = if p.driver == "poll" { DriverType::Poll } else { DriverType::IoUring };
+    let _ = verif::drain();
+    verif::enable(true);
+    if canary {
+        alloc::quarantine(true);
+    }
+    let mut d = Proactor::builder()
+        .capacity(64)
+        .driver_type(dt)
+        .buffer_pool_size(std::num::NonZero::new(p.pool_size).unwrap())
+        .buffer_pool_buffer_len(p.buf_len)
+        .thread_pool_limit(4)
+        .thread_pool_recv_timeout(Duration::from_millis(50))
+        .build()
+        .map_err(|e| format!("proactor: {e}"))?;
+    let pool = d.buffer_pool().map_err(|e| format!("buffer pool: {e}"))?;
+    let (sa, sb) = mk_socketpair(libc::SOCK_STREAM);
+    let (pr, pw) = mk_pipe();
+    let path = std::env::temp_dir().join(format!("vdrv-c07-{}", std::process::id()));
+    let file_content: Vec<u8> = (0..700).map(|o| pat(0xF07, o)).collect();
+    std::fs::write(&path, &file_content).map_err(|e| e.to_string())?;
+    let f = std::fs::File::open(&path).map_err(|e| e.to_string())?;
+    if dt == DriverType::Poll {
+        set_nonblocking(sa.as_raw_fd(), true);
+        set_nonblocking(pr.as_raw_fd(), true);
+    }
+    let mut ex = Exec {
+        driver: Some(d),
+        pool: Some(pool),
+        ops: Vec::new(),
+        held: Vec::new(),
+        fed: [Vec::new(), Vec::new()],
+        got: [Vec::new(), Vec::new()],
+        chunks: [Vec::new(), Vec::new()],
+        lossy: [false, false],
+        peers: vec![sb, pw],
+        fds: vec![
+            SharedFd::new(ProbeFd::new(sa)),
+            SharedFd::new(ProbeFd::new(pr)),
+            SharedFd::new(ProbeFd::new(OwnedFd::from(f))),
+        ],
+        file_content,
+        viol: Vec::new(),
+        exhausted_seen: false,
+        held_across_completion: false,
+        drv: p.driver,
+    };
+    let effective = (p.pool_size as usize).next_power_of_two();
+    let mut dropped = false;
+    let mut max_held = 0usize;
+    for a in &p.acts {
+        match a {
+            Act::Managed(c, l) => ex.push_managed(*c, *l),
+            Act::Multi(c) => ex.push_multi(*c),
+            Act::Feed(c, n) => ex.feed(*c, *n),
+            Act::Poll(ms) => ex.poll(*ms),
+            Act::Pop(i) => ex.pop(*i),
+            Act::Release(i) => {
+                if *i < ex.held.len() {
+                    ex.check_held("release");
+                    ex.held.remove(*i);
+                }
+            }
+            Act::Cancel(i) => ex.let_go(*i, true),
+            Act::DropKey(i) => ex.let_go(*i, false),
+            Act::CheckHeld => ex.check_held("step"),
+            Act::DropProactor => {
+                dropped = true;
+                for o in ex.ops.iter_mut() {
+                    if !o.done && o.ch < 2 {
+                        // whatever that operation received dies with it
+                        ex.lossy[o.ch] = true;
+                    }
+                    o.slot = Slot::None;
+                    o.done = true;
+                }
+                ex.pool = None;
+                ex.driver = None;
+                // (e) buffers outlive the pool: still readable, and the peers may keep talking
+                ex.feed(0, 64);
+                ex.feed(1, 64);
+                ex.check_held("after-proactor-drop");
+            }
+        }
+        max_held = max_held.max(ex.held.len());
+        if dropped {
+            break;
+        }
+    }
+    ex.check_held("end");
+    ex.check_streams();
+    if !dropped {
+        ex.census(effective);
+    }
+    // teardown
+    for o in ex.ops.iter_mut() {
+        o.slot = Slot::None;
+    }
+    ex.pool = None;
+    ex.driver = None;
+    ex.feed(0, 32);
+    ex.feed(1, 32);
+    let (pool_quiet, events) = crate::drv::soup::settle_log(Duration::from_millis(1500));
+    ex.check_held("after-teardown");
+    ex.held.clear();
+    ex.fds.clear();
+    ex.peers.clear();
+    let _ = std::fs::remove_file(&path);
+    let corrupt = if canary { alloc::scan() } else { Vec::new() };
+    alloc::quarantine(false);
+    verif::enable(false);
+    let mut events = events;
+    events.extend(verif::drain());
+    if canary {
+        alloc::release_all();
+    }
+    let names = verif::type_names();
+    let sum = check::check_log(&events, &names, pool_quiet);
+    let mut viol = std::mem::take(&mut ex.viol);
+    for f in &sum.findings {
+        viol.push((format!("C07/{}/{}/{}", f.rule, p.driver, f.ty), f.what.clone()));
+    }
+    for c in &corrupt {
+        viol.push((format!("C07/write-into-released-memory/{}", p.driver),
+            format!("a released {}-byte block was written after its release (offset {}, {} bytes changed)", c.size, c.offset, c.changed)));
+    }
+    let sig = format!(
+        "{}|pool{}|len{}|held{}|{}|{}|{}",
+        p.driver,
+        p.pool_size,
+        p.buf_len,
+        max_held.min(4),
+        if ex.held_across_completion { "held-across-completion" } else { "-" },
+        if ex.exhausted_seen { "exhausted" } else { "-" },
+        if dropped { "proactor-dropped" } else { "census" },
+    );
+    Ok(Outcome {
+        viol,
+        sig,
+        trivial: !(ex.held_across_completion || ex.exhausted_seen),
+        log: check::render(&events, &names, 300),
+    })
+}
+
+pub fn main(args: &Args) {
+    let mut rep = Report::from_args("C07", &args.str("leg", "plain"), args);
+    let canary = !args.flag("no-canary");
+    let drivers: Vec<&'static str> = match args.get("driver") {
+        Some("poll") => vec!["poll"],
+        Some("iour") => vec!["iour"],
+        _ => vec!["iour", "poll"],
+    };
+    let progs: Vec<Prog> = if let Some(path) = args.get("replay") {
+        let text = std::fs::read_to_string(path).expect("replay file");
+        let v: Value = vcommon::serde_json::from_str(&text).expect("json");
+        match Prog::from_json(&v["program"]["program"]).or_else(|| Prog::from_json(&v["program"])) {
+            Some(p) => vec![p; args.usize("repeat", 10)],
+            None => {
+                rep.inconclusive("replay file has no program");
+                rep.finish();
+                return;
+            }
+        }
+    } else {
+        let base = Rng::new(args.seed()).fork(args.shard() + 1);
+        (0..args.iters(300, 20000)).map(|i| generate(&mut base.fork(i as u64), drivers[i % drivers.len()])).collect()
+    };
+    for p in progs {
+        if rep.out_of_time() {
+            break;
+        }
+        match panics::catch(|| run_prog(&p, canary)) {
+            Ok(Ok(o)) => {
+                rep.floor("buffer-held-across-a-later-completion", o.sig.contains("held-across-completion"));
+                rep.floor("exhaustion-reached", o.sig.contains("exhausted"));
+                if o.viol.is_empty() {
+                    rep.eval(if o.trivial { None } else { Some(o.sig) });
+                    if rep.want_sample() && p.acts.len() > 8 {
+                        rep.sample(p.to_json());
+                    }
+                } else {
+                    rep.eval(None);
+                    let mut seen = std::collections::HashSet::new();
+                    for (sig, what) in o.viol {
+                        if seen.insert(sig.clone()) {
+                            rep.violation(&sig, &what, json!({"program": p.to_json(), "log": o.log}));
+                        }
+                    }
+                }
+            }
+            Ok(Err(e)) => {
+                rep.eval(None);
+                alloc::quarantine(false);
+                verif::enable(false);
+                rep.inconclusive(&e);
+            }
+            Err(pi) => {
+                rep.eval(None);
+                alloc::quarantine(false);
+                verif::enable(false);
+                let _ = verif::drain();
+                alloc::release_all();
+                match pi.origin() {
+                    panics::Origin::Repo(_) => rep.violation(
+                        &format!("C07/{}/{}", pi.sig(), p.driver),
+                        &format!("panic in compio at {}:{}: {}", pi.file, pi.line, pi.message),
+                        json!({"program": p.to_json()}),
+                    ),
+                    o => rep.inconclusive(&format!("harness panic {o:?}: {}", pi.message)),
+                }
+            }
+        }
+    }
+    rep.finish();
 }
